@@ -22,8 +22,9 @@ def paste_shape_aware(prog: Program) -> List[Instance]:
     (1.0005) drifts by |s-1|*N pixels across an N pixel raster; eligibility that never sees the raster
     extent cannot bound that drift."""
     f = prog.func("overlap:_can_paste")
+    fq = "overlap:_can_paste"  # construct ids stay keyed by the anchor name (known findings are keyed by it)
     sees_extent = any(("shape" in p.arg) or ("size" in p.arg) or p.arg in ("src", "dst", "nx", "ny") for p in f.params())
-    return [Instance("R-GUARDSEQ", f"{f.qual}#extent-aware", OK if sees_extent else BAD,
+    return [Instance("R-GUARDSEQ", f"{fq}#extent-aware", OK if sees_extent else BAD,
                      "paste eligibility is given the raster extent" if sees_extent else
                      "paste eligibility is decided from the affine alone (parameters: " + ", ".join(f.param_names()) + "): a near-integer scale within stol is accepted whatever the raster size, the accumulated drift |s-1|*N exceeds half a pixel for N > 0.5/|s-1|", f.where())]
 
@@ -32,12 +33,13 @@ def scale_guard_tolerance(prog: Program) -> List[Instance]:
     """C16: pixel_translation accepts scale terms with numpy.isclose's default rtol=1e-5: 10 m and
     10.00005 m grids pass, over 1e6 pixels that is a 5 pixel mismatch."""
     f = prog.func("geobox:pixel_translation")
+    fq = "geobox:pixel_translation"  # construct ids stay keyed by the anchor name (known findings are keyed by it)
     out: List[Instance] = []
     calls = [n for n in walk_own(f.node) if isinstance(n, ast.Call) and call_name(n) == "isclose"]
     loose = [n for n in calls if not any(k.arg in ("rtol", "atol", "rel_tol", "abs_tol") for k in n.keywords) and len(n.args) <= 2]
     if not calls:
-        return [Instance("R-GUARDSEQ", f"{f.qual}#scale-tolerance", INFO, "no isclose guard", f.where(), nontrivial=False)]
-    out.append(Instance("R-GUARDSEQ", f"{f.qual}#scale-tolerance", BAD if loose else OK,
+        return [Instance("R-GUARDSEQ", f"{fq}#scale-tolerance", INFO, "no isclose guard", f.where(), nontrivial=False)]
+    out.append(Instance("R-GUARDSEQ", f"{fq}#scale-tolerance", BAD if loose else OK,
                         f"{len(loose)} of {len(calls)} grid-compatibility guards use numpy.isclose with its default rtol=1e-5 / atol=1e-8, independent of the GeoBox size: pixel sizes differing by 5e-6 (10 m vs 10.00005 m) are accepted and drift by whole pixels over 1e6 px" if loose
                         else "grid-compatibility guards state their tolerances", f.where(calls[0])))
     return out
@@ -48,15 +50,16 @@ def boundary_sampling(prog: Program) -> List[Instance]:
     per side. With the count a literal, an edge that is curved in the other pixel space and has its extreme
     between two samples is under-covered by more than the constant padding."""
     f = prog.func("overlap:compute_reproject_roi")
+    fq = "overlap:compute_reproject_roi"  # construct ids stay keyed by the anchor name (known findings are keyed by it)
     out: List[Instance] = []
     for n in walk_own(f.node):
         if isinstance(n, ast.Assign) and len(n.targets) == 1 and isinstance(n.targets[0], ast.Name) and "pts" in n.targets[0].id:
             lit = const_num(n.value) is not None
-            out.append(Instance("R-GUARDSEQ", f"{f.qual}#boundary-sampling", BAD if lit else OK,
+            out.append(Instance("R-GUARDSEQ", f"{fq}#boundary-sampling", BAD if lit else OK,
                                 f"`{short(n)}`: the number of boundary samples per side is a constant, independent of raster size and curvature: for a 4000x4000 km EPSG:3577 destination over a lon/lat source roi_src is 9 rows short" if lit
                                 else f"`{short(n)}` adapts the boundary sampling to the rasters", f.where(n)))
     if not out:
-        out.append(Instance("R-GUARDSEQ", f"{f.qual}#boundary-sampling", INFO, "boundary sample count not found as a local", f.where(), nontrivial=False))
+        out.append(Instance("R-GUARDSEQ", f"{fq}#boundary-sampling", INFO, "boundary sample count not found as a local", f.where(), nontrivial=False))
     return out
 
 
@@ -65,8 +68,9 @@ def gdal_identity_transform(prog: Program) -> List[Instance]:
     'no georeferencing' and replaces it, dropping the -1 y scale. _rio_reproject hands the transforms over
     without looking at them."""
     f = prog.func("warp:_rio_reproject")
+    fq = "warp:_rio_reproject"  # construct ids stay keyed by the anchor name (known findings are keyed by it)
     guarded = any(isinstance(n, ast.Attribute) and n.attr in ("is_identity", "almost_equals") for n in walk_own(f.node)) or any(isinstance(n, ast.Call) and call_name(n) in ("almost_equals",) for n in walk_own(f.node))
-    return [Instance("R-GUARDSEQ", f"{f.qual}#identity-transform", OK if guarded else BAD,
+    return [Instance("R-GUARDSEQ", f"{fq}#identity-transform", OK if guarded else BAD,
                      "transforms are checked against rasterio's identity special case" if guarded else
                      "src/dst transforms go to rasterio.warp.reproject unexamined: a north-up grid with 1-unit pixels whose corner is the CRS origin (affine (1,0,0,0,-1,0)) is treated by rasterio as unreferenced and comes back vertically mirrored although planning reported paste_ok", f.where())]
 
@@ -75,9 +79,10 @@ def int64_nodata(prog: Program) -> List[Instance]:
     """C15: GDAL stores nodata as a double (text %.17g): 64-bit integer nodata of magnitude >= 2**53 does not
     survive. _write_cog passes the value through without looking at the dtype."""
     f = prog.func("cog._rio:_write_cog")
+    fq = "cog._rio:_write_cog"  # construct ids stay keyed by the anchor name (known findings are keyed by it)
     upd = [n for n in walk_own(f.node) if isinstance(n, ast.Call) and call_name(n) == "update" and any(k.arg == "nodata" for k in n.keywords)]
     if not upd:
-        return [Instance("R-GUARDSEQ", f"{f.qual}#nodata-representable", INFO, "nodata option not set through rio_opts.update", f.where(), nontrivial=False)]
+        return [Instance("R-GUARDSEQ", f"{fq}#nodata-representable", INFO, "nodata option not set through rio_opts.update", f.where(), nontrivial=False)]
     st = enclosing_stmt(upd[0])
     checked = False
     p = parent(st)
@@ -86,7 +91,7 @@ def int64_nodata(prog: Program) -> List[Instance]:
             checked = True
         p = parent(p)
     checked = checked or any(isinstance(n, (ast.Raise, ast.Call)) and "nodata" in names_in(n) and any(isinstance(x, ast.Attribute) and x.attr in ("itemsize", "kind") for x in ast.walk(n)) for n in walk_own(f.node) if isinstance(n, ast.If))
-    return [Instance("R-GUARDSEQ", f"{f.qual}#nodata-representable", OK if checked else BAD,
+    return [Instance("R-GUARDSEQ", f"{fq}#nodata-representable", OK if checked else BAD,
                      "nodata is checked against the dtype before it is handed to GDAL" if checked else
                      "nodata is handed to GDAL whatever the dtype: for int64/uint64 a value of magnitude >= 1e17 (np.iinfo(int64).min) is stored as a double and reads back as -9.0 / None", f.where(upd[0]))]
 
@@ -96,12 +101,13 @@ def lonlat_footprint_validity(prog: Program) -> List[Instance]:
     raster containing a pole or crossing the antimeridian that ring is self-intersecting and `&` raises
     GEOSException; nothing validates or catches."""
     f = prog.func("geobox:GeoboxTiles.grid_intersect")
+    fq = "geobox:GeoboxTiles.grid_intersect"  # construct ids stay keyed by the anchor name (known findings are keyed by it)
     ands = [n for n in walk_own(f.node) if isinstance(n, ast.BinOp) and isinstance(n.op, ast.BitAnd) and any(isinstance(c, ast.Call) and call_name(c) == "footprint" for c in ast.walk(n))]
     if not ands:
-        return [Instance("R-EMPTY", f"{f.qual}#footprint-validity", INFO, "no footprint intersection", f.where(), nontrivial=False)]
+        return [Instance("R-EMPTY", f"{fq}#footprint-validity", INFO, "no footprint intersection", f.where(), nontrivial=False)]
     n = ands[0]
     safe = any(isinstance(p_, ast.Try) for p_ in _ancestors(n, f.node)) or any(isinstance(c, ast.Call) and call_name(c) in ("make_valid", "buffer") for c in ast.walk(n))
-    return [Instance("R-EMPTY", f"{f.qual}#footprint-validity", OK if safe else BAD,
+    return [Instance("R-EMPTY", f"{fq}#footprint-validity", OK if safe else BAD,
                      "lon/lat footprints are made valid (or the failure is handled) before they are intersected" if safe else
                      f"`{short(n, 70)}` intersects raw lon/lat footprints: for a polar-stereographic raster containing the pole, or a raster reaching the antimeridian, the ring is invalid and GEOS raises TopologyException instead of a dependency graph", f.where(n))]
 
@@ -112,16 +118,17 @@ def footprint_sampling(prog: Program) -> List[Instance]:
     fixed in CRS units, so in output pixels it grows with the raster (4 px for a 100k px continental raster
     against a promised 0.01 px)."""
     f = prog.func("overlap:compute_output_geobox")
+    fq = "overlap:compute_output_geobox"  # construct ids stay keyed by the anchor name (known findings are keyed by it)
     out: List[Instance] = []
     for n in walk_own(f.node):
         if isinstance(n, ast.Call) and call_name(n) == "footprint":
             np_ = next((k.value for k in n.keywords if k.arg == "npoints"), n.args[2] if len(n.args) > 2 else None)
             lit = np_ is None or const_num(np_) is not None
-            out.append(Instance("R-GUARDSEQ", f"{f.qual}#footprint-sampling", BAD if lit else OK,
+            out.append(Instance("R-GUARDSEQ", f"{fq}#footprint-sampling", BAD if lit else OK,
                                 f"`{short(n, 60)}`: the number of footprint samples per side is a constant, independent of the raster's size in pixels: for rasters beyond ~60k px per side rows/columns of source pixel centres project 1.5-4 output pixels outside the computed grid" if lit
                                 else f"`{short(n, 60)}` adapts the footprint sampling to the raster", f.where(n)))
     if not out:
-        out.append(Instance("R-GUARDSEQ", f"{f.qual}#footprint-sampling", INFO, "no footprint() call", f.where(), nontrivial=False))
+        out.append(Instance("R-GUARDSEQ", f"{fq}#footprint-sampling", INFO, "no footprint() call", f.where(), nontrivial=False))
     return out[:1]
 
 
@@ -130,6 +137,7 @@ def region_densification(prog: Program) -> List[Instance]:
     segments per side), whatever the requested pixel size or tol: the bounding box of the projected ring is
     short by the sagitta of one segment, a fixed length that is many pixels at fine resolutions."""
     f = prog.func("geobox:GeoBox.from_geopolygon")
+    fq = "geobox:GeoBox.from_geopolygon"  # construct ids stay keyed by the anchor name (known findings are keyed by it)
     out: List[Instance] = []
     for n in walk_own(f.node):
         if isinstance(n, ast.Call) and call_name(n) == "to_crs":
@@ -137,11 +145,11 @@ def region_densification(prog: Program) -> List[Instance]:
             if r is None:
                 continue
             lit = isinstance(r, ast.Constant)
-            out.append(Instance("R-GUARDSEQ", f"{f.qual}#densify-vs-pixel", BAD if lit else OK,
+            out.append(Instance("R-GUARDSEQ", f"{fq}#densify-vs-pixel", BAD if lit else OK,
                                 f"`{short(n, 60)}`: the densification step does not depend on the requested resolution/tol: a lon/lat box over Europe at 10 m in EPSG:3035 sticks out of the grid by 6.8 pixels (tol promises 0.01)" if lit
                                 else f"`{short(n, 60)}` ties the densification to the requested grid", f.where(n)))
     if not out:
-        out.append(Instance("R-GUARDSEQ", f"{f.qual}#densify-vs-pixel", INFO, "region is not re-projected with a densification step", f.where(), nontrivial=False))
+        out.append(Instance("R-GUARDSEQ", f"{fq}#densify-vs-pixel", INFO, "region is not re-projected with a densification step", f.where(), nontrivial=False))
     return out[:1]
 
 
